@@ -131,16 +131,12 @@ def install_wrappers():
 class World:
     NOBJ = 4
 
-    _frozen = False
-
     def __init__(self):
         install_wrappers()
-        if not World._frozen:
-            # everything allocated so far (modules, classes) is moved out of the collector's sight: the many
-            # gc.collect() calls below then only traverse what a history allocated
-            World._frozen = True
-            gc.collect()
-            gc.freeze()
+        # everything alive so far (modules, classes, results of earlier histories) is moved out of the collector's
+        # sight: the many gc.collect() calls below then only traverse what this history allocates
+        gc.collect()
+        gc.freeze()
         E.reset_clock()
         self.decrefs = []
         DecrefLog.active = self.decrefs
